@@ -115,7 +115,8 @@ def case(spec):
     dfsbin = BIN['san']['dfs']
     with Scratch('c12') as tmp:
         root = os.path.join(tmp, 'sandbox')
-        dest = os.path.join(root, 'l1', 'l2', 'l3', 'l4', 'l5', 'dest')
+        destname = rng.choice(['dest', 'dest', 'dest', 'bs\\', 'dot.', 'sp ace', '-dash', 'tilde~', 'q?', 'star*', 'd%2F', 'inf.inf'])
+        dest = os.path.join(root, 'l1', 'l2', 'l3', 'l4', 'l5', destname)
         os.makedirs(dest)
         cwd = os.path.join(root, 'cwd')
         os.makedirs(cwd)
@@ -126,6 +127,8 @@ def case(spec):
                 write_file(os.path.join(p, decoy), b'decoy at ' + p.encode())
         imgdir = os.path.join(root, 'images')
         os.makedirs(imgdir)
+        tmpdir = os.path.join(root, 'tmpdir')       # the tools' own temporary files must not survive either
+        os.makedirs(tmpdir)
         s = hostile_surface(rng)
         raw = s.image()
         gz = rng.random() < 0.3
@@ -153,15 +156,26 @@ def case(spec):
             else:
                 args = [c]
             cmds.append((c, ['--verbose'] if rng.random() < 0.2 else [], args, False))
-        for what, pre, args, may_write in cmds:
+        # images that cannot be opened / decompressed: nothing may be left behind (temporary files included)
+        missing = os.path.join(imgdir, 'missing.ssd' + ('.gz' if rng.random() < 0.7 else ''))
+        notgz = os.path.join(imgdir, 'notgz.ssd.gz')
+        write_file(notgz, raw[:3000])
+        cut = os.path.join(imgdir, 'cut.ssd.gz')
+        write_file(cut, gzip.compress(raw)[:200])
+        for badimg in (missing, notgz, cut):
+            cmds.append(('bad-image:' + rng.choice(['cat', 'info', 'type']), [], ['cat'], False, badimg))
+        for item in cmds:
+            what, pre, args, may_write = item[:4]
+            thisimg = item[4] if len(item) > 4 else ipath
             before = snapshot(root)
             use_strace = STRACE and rng.random() < (0.15 if tier == 'quick' else 0.25)
-            argv = [dfsbin] + pre + ['--file', ipath] + args
+            argv = [dfsbin] + pre + ['--file', thisimg] + args
             if use_strace:
                 log = os.path.join(tmp, 'strace.log')
-                r_ = run([STRACE, '-f', '-o', log, '-s', '4096', '-e', 'trace=%file', '--'] + argv, cwd=cwd, timeout=60)
+                r_ = run([STRACE, '-f', '-o', log, '-s', '4096', '-e', 'trace=%file', '--'] + argv, cwd=cwd, timeout=60,
+                         env={'TMPDIR': tmpdir})
             else:
-                r_ = run(argv, cwd=cwd)
+                r_ = run(argv, cwd=cwd, env={'TMPDIR': tmpdir})
             res.execs += 1
             k = clean_failure_key(r_, (0, 1, 2))
             if k:
@@ -199,7 +213,7 @@ def case(spec):
                         continue
                     if sp.startswith('/dev/') or sp.startswith('/proc/'):
                         continue
-                    if sp.startswith('/tmp/') and gz and call in ('open', 'openat', 'unlink', 'unlinkat'):
+                    if (sp.startswith('/tmp/') or sp.startswith(tmpdir)) and call in ('open', 'openat', 'unlink', 'unlinkat'):
                         res.add('gzip_tempfiles_seen', 1)
                         continue      # tmpfile() fallback: created and immediately unlinked
                     res.violation('strace-write-outside:' + what, '%s(%r) outside the destination' % (call, sp),
